@@ -19,6 +19,23 @@ const (
 	peersVersion = 2
 )
 
+const (
+	// maxPreallocCount bounds the capacity reserved before the records have actually been read.
+	maxPreallocCount = 1024
+
+	// maxPeerAddressSize bounds the size of a stored peer address.
+	maxPeerAddressSize = 0xffff
+)
+
+// preallocCount returns the capacity to reserve for a list whose record count was read from
+// stored data. The list still grows to the full count as the records are actually read.
+func preallocCount(count uint64) uint64 {
+	if count > maxPreallocCount {
+		return maxPreallocCount
+	}
+	return count
+}
+
 // Peer address database. Used to find Tx Peers.
 type Peer struct {
 	Address  string
@@ -75,9 +92,12 @@ func (repo *PeerRepository) Load(ctx context.Context) error {
 	if err := binary.Read(buffer, binary.LittleEndian, &count); err != nil {
 		return errors.Wrap(err, "Failed to read peers count")
 	}
+	if count < 0 {
+		return errors.Errorf("Invalid peers count : %d", count)
+	}
 
 	// Reset
-	repo.list = make([]*Peer, 0, count)
+	repo.list = make([]*Peer, 0, preallocCount(uint64(count)))
 
 	// Parse peers
 	for {
@@ -238,9 +258,12 @@ func readPeer(input io.Reader, version int32) (Peer, error) {
 		return result, err
 	}
 
+	if addressSize < 0 || addressSize > maxPeerAddressSize {
+		return result, errors.Errorf("Invalid peer address size : %d", addressSize)
+	}
+
 	addressData := make([]byte, addressSize)
-	_, err := input.Read(addressData) // Read until string terminator
-	if err != nil {
+	if _, err := io.ReadFull(input, addressData); err != nil {
 		return result, err
 	}
 	result.Address = string(addressData)
